@@ -909,8 +909,16 @@ typename db<Key, Value>::get_result db<Key, Value>::get_internal(
     auto* const inode{node.template ptr<inode_type*>()};
     const auto& key_prefix{inode->get_key_prefix()};
     const auto key_prefix_length{key_prefix.length()};
-    if (key_prefix.get_shared_length(remaining_key) < key_prefix_length)
-      return {};
+    const auto shared_prefix_length{key_prefix.get_shared_length(remaining_key)};
+    if constexpr (std::is_same_v<Key, key_view>) {
+      // A variable length key that runs out of bytes at an inner node (the zero
+      // padding of get_u64() does not count as a match) is a proper prefix of
+      // the keys below the node: it is not stored. Do not index it past its
+      // end.
+      if (UNODB_DETAIL_UNLIKELY(remaining_key.size() <= shared_prefix_length))
+        return {};
+    }
+    if (shared_prefix_length < key_prefix_length) return {};
     remaining_key.shift_right(key_prefix_length);
     const auto* const child{
         inode->find_child(node_type, remaining_key[0]).second};
@@ -1027,6 +1035,13 @@ bool db<Key, Value>::remove_internal(art_key_type remove_key) {
     const auto& key_prefix{inode->get_key_prefix()};
     const auto key_prefix_length{key_prefix.length()};
     const auto shared_prefix_len{key_prefix.get_shared_length(remaining_key)};
+    if constexpr (std::is_same_v<Key, key_view>) {
+      // A variable length key that runs out of bytes at an inner node is a
+      // proper prefix of the keys below the node: it is not stored (see
+      // get_internal).
+      if (UNODB_DETAIL_UNLIKELY(remaining_key.size() <= shared_prefix_len))
+        return false;
+    }
     if (shared_prefix_len < key_prefix_length) return false;
 
     UNODB_DETAIL_ASSERT(shared_prefix_len == key_prefix_length);
